@@ -192,7 +192,7 @@ func (e *Engine) checkInverted(
 	}
 
 	return func(ctx context.Context, resultCh chan<- checkgroup.Result) {
-		innerCh := make(chan checkgroup.Result)
+		innerCh := make(chan checkgroup.Result, 1)
 		go check(graph.ResetVisited(ctx), innerCh)
 		select {
 		case result := <-innerCh:
